@@ -1,5 +1,6 @@
 import HapVerif.Model.C16
 import HapVerif.Model.C16Callers
+import HapVerif.Model.C16Hist
 import HapVerif.Drv.Common
 namespace HapVerif.C16
 open HapVerif.Drv
@@ -114,6 +115,57 @@ def splitAgrees (ann : Option String) : Bool :=
 
 def showInts (l : List Int) : String := if l.isEmpty then "-" else ",".intercalate (l.map toString)
 
+/-! ### histories (grammar: harness/cmd/hv/c16hist.go) -/
+
+def chunk4 : List String → Option (List (String × String × String × String))
+  | [] => some []
+  | a :: b :: c :: d :: rest => (chunk4 rest).map ((a, b, c, d) :: ·)
+  | _ => none
+
+/-- what of a `bgh` state reaches the controller as an event when it changes: the annotations and the
+Endpoints object (address, readiness, targetRef); the labels of an existing pod do not -/
+def bgVisText (t : String × String × String × String) : String :=
+  let eps := (t.2.2.2.splitOn ",").map fun e =>
+    let (st, rest) := splitOn1 e ":"
+    let (pod, adr) := splitOn1 rest "@"
+    st ++ ":" ++ (if pod = "n" ∨ pod = "m" then pod else "p") ++ "@" ++ adr
+  " ".intercalate [t.1, t.2.1, t.2.2.1, ",".intercalate eps]
+
+structure BgCfg where
+  visText : String
+  addrs : List Nat
+  inp : BgIn
+
+/-- one state of a `bgh` history: the address ids of the servers (address order) and the `bg` input -/
+def parseBgCfg (t : String × String × String × String) : Option BgCfg := do
+  let i ← parseBgIn t.1 t.2.1 t.2.2.1 t.2.2.2
+  let ls ← parseBgListed t.2.2.2
+  pure ⟨bgVisText t, ((bgAcquire ls).foldr bgSrvInsert []).map (·.1), i⟩
+
+def bgVis (a b : BgCfg) : Bool := a.visText != b.visText
+
+def bgConvert (c : BgCfg) : HBackend Unit := bgBackend (c.addrs, c.inp)
+
+/-- `<step>;<step>;...` -/
+def parseSteps {β : Type} (pstep : String → Option β) (s : String) : Option (List β) :=
+  (s.splitOn ";").mapM pstep
+
+/-- `<step>;<step>;...#<fresh>` -/
+def parseHistOut {β : Type} (pstep : String → Option β) (s : String) : Option (List β × String) :=
+  match s.splitOn "#" with
+  | [st, f] => ((st.splitOn ";").mapM pstep).map (·, f)
+  | _ => none
+
+def parseBgStep (s : String) : Option (List Int × List Int × List Int) :=
+  match s.splitOn "|" with
+  | [w, r, f] => do pure (← parseList String.toInt? w, ← parseList String.toInt? r, ← parseList String.toInt? f)
+  | _ => none
+
+/-- the FIRST violated clause over the steps -/
+def firstSome {α : Type} (f : α → Option String) : List α → Option String
+  | [] => none
+  | x :: xs => match f x with | some r => some r | none => firstSome f xs
+
 /-- `rebalance <initial> <W:L,...>` with impl output `<w,...>` (ints);
 `gw <kind> <refs>` and `bg <mode> <initial> <ann> <eps>`: the callers (`gw`: the servers are compared
 as multisets per backendRef; `bg`: one weight per SERVER = distinct address, in address order) -/
@@ -147,6 +199,46 @@ def handle (args : List String) (impl : String) : Verdict :=
       { model := showInts m, agree := m = obs ∧ splitAgrees i.ann, oracle := bgOracle i obs,
         trivial := (bgEntries i.ann).isNone || i.eps.isEmpty }
     | _, _ => if impl = "PANIC" then { model := "-", agree := false, oracle := some "panic-bg" } else bad "parse"
+  | "bgh" :: rest =>
+    match (chunk4 rest).bind (·.mapM parseBgCfg), parseSteps parseBgStep impl with
+    | some cfgs, some steps =>
+      -- the model of the history: events (the Pod watcher drops label updates), convert, shrink against the
+      -- committed backend with the code's key, commit
+      let sts := histStepsWith keyWhole bgVis bgConvert {} cfgs
+      let m := sts.map fun s => (s.store.map bgWritten).getD []
+      let agree := m.length = steps.length ∧ (m.zip steps).all fun (w, o) => w = o.1 ∧ w = o.2.1
+      -- per step: the history clause, then the Spec of C16 on what is WRITTEN (and on what the running HAProxy
+      -- holds) against the configuration of that step
+      let spec := firstSome (fun (p : (BgCfg × HState Unit BgCfg) × (List Int × List Int × List Int)) =>
+        let relabel := match p.1.2.seen with
+          | some s => s.visText == p.1.1.visText && s.inp.eps != p.1.1.inp.eps
+          | none => false
+        match histOracle relabel p.2.1 p.2.2.1 p.2.2.2 with
+        | some r => some r
+        | none => bgOracle p.1.1.inp p.2.1) ((cfgs.zip sts).zip steps)
+      { model := ";".intercalate (m.map showInts),
+        agree := agree ∧ cfgs.all (fun c => splitAgrees c.inp.ann),
+        oracle := spec,
+        trivial := cfgs.length < 2 || cfgs.all fun c => (bgEntries c.inp.ann).isNone || c.inp.eps.isEmpty }
+    | _, _ => if impl = "PANIC" then { model := "-", agree := false, oracle := some "panic-bgh" } else bad "parse"
+  | "gwh" :: kind :: rest =>
+    match rest.mapM (parseList (parseGwRef (kind.endsWith "s"))), parseHistOut parseGwOut impl with
+    | some cfgs, some (steps, fresh) =>
+      match parseGwOut fresh with
+      | none => if fresh = "PANIC" then { model := "-", agree := false, oracle := some "panic-gwh" } else bad "parse"
+      | some fr =>
+      let sts := histStepsWith keyWhole visAlways gwBackend {} cfgs
+      let m := (sts.zip cfgs).map fun p => (p.1.store.bind (gwWritten p.2.length ·))
+      let norm := fun (o : Option (List (List (Nat × Int)))) => o.map (·.map srvSort)
+      let agree := m.length = steps.length ∧ (m.zip steps).all fun (w, o) => norm w = norm o
+      let spec := firstSome (fun (p : List GwRef × Option (List (List (Nat × Int)))) => gwOracle p.1 p.2) (cfgs.zip steps)
+      let last := match steps.getLast? with
+        | some w => histOracle false (norm w) (norm w) (norm fr)
+        | none => none
+      { model := ";".intercalate (m.map showGwOut), agree := agree,
+        oracle := match last with | some r => some r | none => spec,
+        trivial := cfgs.length < 2 || m.all fun o => match o with | none => true | some per => per.all (·.isEmpty) }
+    | _, _ => if impl = "PANIC" then { model := "-", agree := false, oracle := some "panic-gwh" } else bad "parse"
   | _ => bad "C16"
 
 end HapVerif.C16
